@@ -797,7 +797,7 @@ Qed.
 
 End Tree.
 
-Theorem sync_all_tree d pub cfg scoped st t :
+Theorem sync_all_tree_fuel d pub cfg scoped st t :
   dag_has d t = true -> NoDup (preorder t) -> (depth t <= S (length d))%nat ->
   avail pub (s_store st) (preorder t) = true ->
   sync_all (WORLD d pub) cfg (Some (root t)) scoped st =
@@ -808,6 +808,146 @@ Proof.
   assert (En : seg_enabled (-1) (resolve_hook cfg scoped) None = false) by reflexivity.
   rewrite En. unfold handle_plain, walk_fuel. cbn [w_dag].
   rewrite (walk_tree d pub (S (length d)) t (s_store st) Hd Hh Hn Hav). reflexivity.
+Qed.
+
+(* ---- DAGs: any finite unfolding, shared blocks included ---- *)
+
+Lemma fetches_ext l : forall s1 s2, (forall x, memb x s1 = memb x s2) -> fetches s1 l = fetches s2 l.
+Proof.
+  induction l as [|x r IH]; intros s1 s2 H; [reflexivity|]. cbn [fetches]. rewrite (H x).
+  destruct (memb x s2); [apply IH; exact H|]. f_equal. apply IH. intro y. rewrite !memb_cons, H. reflexivity.
+Qed.
+
+Lemma fetches_app a : forall s b,
+  fetches s (a ++ b) = fetches s a ++ fetches (rev (fetches s a) ++ s) b.
+Proof.
+  induction a as [|x a IH]; intros s b; [reflexivity|]. cbn [app fetches].
+  destruct (memb x s); [apply IH|]. rewrite IH. cbn [app rev]. rewrite <- app_assoc. reflexivity.
+Qed.
+
+Lemma fetches_nodup l : forall s, NoDup l -> fetches s l = missing s l.
+Proof.
+  induction l as [|x r IH]; intros s N; [reflexivity|]. inversion N; subst. cbn [fetches]. rewrite missing_cons.
+  destruct (memb x s); cbn [negb]; [apply IH; assumption|]. f_equal. rewrite IH by assumption.
+  apply missing_ext. intros y Hy. rewrite memb_cons. destruct (y =? x) eqn:E; [apply N.eqb_eq in E; subst; contradiction|reflexivity].
+Qed.
+
+Section Dag.
+Variable d : dag.
+Variable pub : list cid.
+Let w := WORLD d pub.
+
+(* t is any finite unfolding of the DAG below its root (a shared block occurs once per path) *)
+Lemma walk_dag : forall fuel t store,
+  (depth t <= fuel)%nat -> dag_has d t = true ->
+  avail pub store (preorder t) = true ->
+  walk fuel w VAll None None (root t) store =
+  WO (preorder t) (fetches store (preorder t)) (rev (fetches store (preorder t)) ++ store) WOk.
+Proof.
+  induction fuel as [|f IH]; intros [c ks] store Hd Hh Hav; [cbn in Hd; lia|].
+  rewrite walk_unfold. cbn [root].
+  rewrite dag_has_node in Hh. apply andb_prop in Hh as [Hg Hks].
+  rewrite preorder_node in *.
+  destruct (dag_get d c) as [es|] eqn:G; [|discriminate]. apply list_eqb_N_eq in Hg.
+  cbn [avail forallb] in Hav. apply andb_prop in Hav as [Hac Hav].
+  unfold load, w. cbn [w_dag w_pub]. rewrite G.
+  set (req := negb (memb c store)).
+  assert (Hl : (if memb c store then Some (es, false) else if memb c pub then Some (es, true) else None) = Some (es, req)).
+  { unfold req. destruct (memb c store); [reflexivity|]. cbn in Hac. rewrite Hac. reflexivity. }
+  rewrite Hl. rewrite follow_all, Hg.
+  assert (Hkids : forall l acc,
+    (forall x, In x l -> In x ks) ->
+    avail pub (o_store acc) (flat_map preorder l) = true -> o_res acc = WOk ->
+    walk_kids f w VAll None None (map root l) acc =
+    WO (o_order acc ++ flat_map preorder l) (o_reqs acc ++ fetches (o_store acc) (flat_map preorder l))
+       (rev (fetches (o_store acc) (flat_map preorder l)) ++ o_store acc) WOk).
+  { induction l as [|x r IHl]; intros acc Hsub Ha Hr.
+    - cbn. rewrite !app_nil_r. destruct acc; cbn in *; subst; reflexivity.
+    - cbn [map walk_kids is_stop deeper negb orb flat_map dec_lim] in *.
+      assert (Hx : In x ks) by (apply Hsub; left; reflexivity).
+      rewrite avail_app in Ha. apply andb_prop in Ha as [Ha1 Ha2].
+      rewrite (IH x (o_store acc)).
+      + cbn [o_res o_order o_reqs o_store].
+        set (acc' := WO (o_order acc ++ preorder x) (o_reqs acc ++ fetches (o_store acc) (preorder x))
+                        (rev (fetches (o_store acc) (preorder x)) ++ o_store acc) WOk).
+        rewrite (IHl acc').
+        * cbn [acc' o_order o_reqs o_store]. rewrite fetches_app, rev_app_distr, <- !app_assoc. reflexivity.
+        * intros y Hy. apply Hsub. right. exact Hy.
+        * eapply avail_weaken'; [|exact Ha2]. intros y Hy. cbn [acc' o_store]. apply memb_rev_app. exact Hy.
+        * reflexivity.
+      + pose proof (depth_kid c ks x Hx). lia.
+      + rewrite forallb_forall in Hks. apply Hks. exact Hx.
+      + exact Ha1. }
+  rewrite (Hkids ks); cbn [o_order o_reqs o_store o_res]; try reflexivity; [|auto|].
+  - cbn [fetches]. unfold req. destruct (memb c store); cbn [negb app rev]; rewrite <- ?app_assoc; reflexivity.
+  - eapply avail_weaken'; [|exact Hav]. intros y Hy. destruct req; [|exact Hy]. rewrite memb_cons, Hy. apply orb_true_r.
+Qed.
+
+End Dag.
+
+Theorem sync_all_dag d pub cfg scoped st t :
+  dag_has d t = true -> (depth t <= S (length d))%nat ->
+  avail pub (s_store st) (preorder t) = true ->
+  sync_all (WORLD d pub) cfg (Some (root t)) scoped st =
+  CO RNil (calls_of (resolve_hook cfg scoped) (preorder t)) (fetches (s_store st) (preorder t)) None
+     (ST (s_latest st) (rev (fetches (s_store st) (preorder t)) ++ s_store st)).
+Proof.
+  intros Hh Hd Hav. unfold sync_all, sync_entries_with, handle.
+  assert (En : seg_enabled (-1) (resolve_hook cfg scoped) None = false) by reflexivity.
+  rewrite En. unfold handle_plain, walk_fuel. cbn [w_dag].
+  rewrite (walk_dag d pub (S (length d)) t (s_store st) Hd Hh Hav). reflexivity.
+Qed.
+
+(* ---- the traversal fuel suffices for every tree the world holds ---- *)
+
+Lemma dag_get_In d c es : dag_get d c = Some es -> In c (map fst d).
+Proof.
+  induction d as [|[k0 e0] r IH]; cbn; [discriminate|].
+  destruct (k0 =? c) eqn:E; [apply N.eqb_eq in E; auto|]. intro H. right. apply IH. exact H.
+Qed.
+
+Lemma kids_depth_le_size ks :
+  (forall x, In x ks -> (depth x <= length (preorder x))%nat) ->
+  ((fix go (l : list tree) : nat := match l with [] => 0%nat | x :: r => Nat.max (depth x) (go r) end) ks
+   <= length (flat_map preorder ks))%nat.
+Proof.
+  induction ks as [|x r IH]; intro H; [cbn; lia|].
+  cbn [flat_map]. rewrite app_length.
+  assert (depth x <= length (preorder x))%nat by (apply H; left; reflexivity).
+  assert ((fix go (l : list tree) : nat := match l with [] => 0%nat | x :: r => Nat.max (depth x) (go r) end) r
+          <= length (flat_map preorder r))%nat by (apply IH; intros y Hy; apply H; right; exact Hy).
+  lia.
+Qed.
+
+(* a tree is at most as deep as it has blocks *)
+Lemma depth_le_size : forall n t, (depth t <= n)%nat -> (depth t <= length (preorder t))%nat.
+Proof.
+  induction n as [|n IH]; intros [c ks] Hd; [cbn in Hd; lia|].
+  rewrite preorder_node. cbn [length]. cbn [depth]. apply le_n_S.
+  apply kids_depth_le_size. intros x Hx. apply IH.
+  pose proof (depth_kid c ks x Hx). lia.
+Qed.
+
+(* every block of a tree the world holds is a block of the world *)
+Lemma dag_has_keys d : forall n t, (depth t <= n)%nat -> dag_has d t = true ->
+  forall x, In x (preorder t) -> In x (map fst d).
+Proof.
+  induction n as [|n IH]; intros [c ks] Hd Hh x Hx; [cbn in Hd; lia|].
+  rewrite dag_has_node in Hh. apply andb_prop in Hh as [Hg Hks].
+  rewrite preorder_node in Hx. destruct Hx as [<-|Hx].
+  - destruct (dag_get d c) as [es|] eqn:G; [|discriminate]. eapply dag_get_In. exact G.
+  - apply in_flat_map in Hx as [y [Hy Hxy]]. apply (IH y); [|rewrite forallb_forall in Hks; apply Hks; exact Hy|exact Hxy].
+    pose proof (depth_kid c ks y Hy). lia.
+Qed.
+
+Lemma tree_fuel_suffices d t :
+  dag_has d t = true -> NoDup (preorder t) -> (depth t <= S (length d))%nat.
+Proof.
+  intros Hh Hn.
+  assert (D : (depth t <= length (preorder t))%nat) by (apply (depth_le_size (depth t)); lia).
+  assert (L : (length (preorder t) <= length (map fst d))%nat).
+  { apply NoDup_incl_length; [exact Hn|]. intros x Hx. apply (dag_has_keys d (depth t) t (le_n _) Hh x Hx). }
+  rewrite map_length in L. lia.
 Qed.
 
 (* ================================================================ *)
@@ -938,6 +1078,16 @@ Proof.
 Qed.
 
 End AdChainCorollaries.
+
+Theorem sync_all_tree d pub cfg scoped st t :
+  dag_has d t = true -> NoDup (preorder t) ->
+  avail pub (s_store st) (preorder t) = true ->
+  sync_all (WORLD d pub) cfg (Some (root t)) scoped st =
+  CO RNil (calls_of (resolve_hook cfg scoped) (preorder t)) (missing (s_store st) (preorder t)) None
+     (ST (s_latest st) (rev (missing (s_store st) (preorder t)) ++ s_store st)).
+Proof.
+  intros Hh Hn Hav. apply sync_all_tree_fuel; try assumption. apply tree_fuel_suffices; assumption.
+Qed.
 
 (* ================================================================ *)
 (* 5. Non-vacuity                                                    *)
